@@ -13,6 +13,9 @@ import TbbVerif.Proofs.C19.OnceThms
 import TbbVerif.Proofs.C19.EtsThms
 import TbbVerif.Proofs.C19.EtsLoadThm
 import TbbVerif.Proofs.C19.LifeStep
+import TbbVerif.Proofs.C19.CollabMain
+import TbbVerif.Proofs.C19.StoreInv
+import TbbVerif.Props.C11
 import TbbVerif.Generated.C19
 
 namespace TbbVerif.C19
@@ -115,6 +118,46 @@ theorem once_refcount_overflow_beyond_bound :
     ((sys 2 (fun k => k == 0) [1, 1, 1, 1]).run [0,0,0, 1,1, 0,0,0,0, 2,2,2, 3,3,3,3, 1,1]).word = ⟨4, 0⟩ := by
   decide
 
+/-- **Correct up to the exact bound.**  The low bits of the state word can count `maxHelpers` = `collaborative_once_references_mask`
+(regenerated) references, i.e. `maxHelpers` helpers simultaneously between their `CAS +1` and their `fetch_sub(1)`.  With at most
+`maxHelpers + 1` callers (one owner + `maxHelpers` potential helpers) — for every number of calls per caller, every throw oracle
+and every schedule — nothing goes wrong: no carry/borrow between the count and the pointer bits, no access to a destroyed
+runner (`bad = false`); the count is `≤ maxHelpers` and, while the word designates a runner, equals the number of helpers
+in that window, which is at most `#callers - 1`; the function completes successfully at most once and every normal return
+happened after that completion. -/
+theorem once_correct_up_to_bound (throws : Nat → Bool) (calls : List Nat) (hN : calls.length ≤ Generated.C19.maxHelpers + 1)
+    (sched : List Tid) (s : St) (hs : s = (sys U throws calls).run sched) :
+    s.bad = false ∧ s.word.lo ≤ Generated.C19.maxHelpers ∧
+    (s.word.hi ≠ 0 → s.word.lo = s.ths.countP isPin ∧ s.word.lo + 1 ≤ calls.length) ∧
+    s.succ ≤ 1 ∧ (∀ (i : Nat) (th : Th) (k : Nat), s.ths[i]? = some th → Ret.ok k ∈ th.rets → k = 1) := by
+  have hU : calls.length ≤ U := by
+    have : Generated.C19.maxHelpers + 1 = U := by decide
+    omega
+  subst hs
+  obtain ⟨h, g⟩ := both_reachable U throws calls hU sched
+  have hl := lo_bound U _ h (by decide)
+  have hlen : ((sys U throws calls).run sched).ths.length = calls.length := by
+    have := h.len
+    have h2 : ∀ (sched : List Tid), ((sys U throws calls).run sched).ths.length = calls.length := by
+      intro sch
+      exact Sys.inv_run (sys U throws calls) (fun s => s.ths.length = calls.length) (by simp [sys, init])
+        (fun s t hh => by rw [← hh]; exact Collab.step_ths_len U throws s t) sch
+    exact h2 sched
+  refine ⟨h.nbad, ?_, fun hhi => ⟨(hl.2 hhi).1, by rw [← hlen]; exact (hl.2 hhi).2⟩, g.sle, g.rok⟩
+  have : U = Generated.C19.maxHelpers + 1 := by decide
+  omega
+
+/-- **The bound is exact.**  One caller more than `max_references` already suffices for the overflow (the mask test of the
+helper loop compares against a stale `expected`): shown on the model with `max_references = 2` (`maxHelpers = 1`) and
+`3 = maxHelpers + 2` callers — caller 1 holds `expected` = runner of caller 0 (whose first attempt threw), caller 2 is the new
+winner, caller 0's second call takes the single available reference, and caller 1's CAS carries into the pointer bits.  For
+the real constant the same schedule needs 129 concurrent callers (the check replays it on the real header as a recorded
+observation, outside the quantifier of `once_correct_up_to_bound`). -/
+theorem once_bound_is_exact :
+    ((sys 2 (fun k => k == 0) [2, 1, 1]).run [0,0,0, 1,1, 0,0, 0,0,0,0,0,0, 2,2,2, 0,0,0,0, 1,1]).bad = true ∧
+    ((sys 2 (fun k => k == 0) [2, 1, 1]).run [0,0,0, 1,1, 0,0, 0,0,0,0,0,0, 2,2,2, 0,0,0,0, 1,1]).word = ⟨4, 0⟩ := by
+  decide
+
 /-! non-vacuity: the hypotheses are satisfiable and the interesting states are reachable -/
 
 /-- two callers, the first invocation throws: caller 0 gets the exception, caller 1 retries, succeeds, returns -/
@@ -129,6 +172,272 @@ example :
     let s := (sys U (fun _ => false) [1, 1]).run
       [0,0,0, 1,1,1,1, 0, 1,1,1, 0,0,0,0,0, 1,1, 0,0, 1,1,1,1]
     s.succ = 1 ∧ s.ths.map (·.rets) = [[Ret.ok 1], [Ret.ok 1]] ∧ s.ths.map (·.pc) = [.idle, .idle] ∧ s.bad = false := by decide
+
+/-! ### the collaborative part: `collaborative_once_runner` (stack-published runner, arena, wait_context, assist, isolation)
+
+`Collab` (Model/C19Collab.lean) = `Once` + incarnations of the stack-published runner, the inner tasks of the user function
+executed by winner / helpers inside `assist()` / workers, isolation, and happens-before ghosts under the memory orders
+regenerated from the header.  A schedule is a list of (thread, action), actions = next atomic access | begin | take | fin |
+nest; the theorems hold for EVERY schedule, every number of callers ≤ `max_references`, every number of calls per caller,
+every throw oracle, every number of inner tasks per invocation (`work`) and every arena size (`conc`). -/
+
+open Collab in
+/-- the statement skeleton and the memory orders as regenerated from /repo (checks/c19collab.py: three scripted E-SHIM traces
+of the real header + the text of `isolated_execute` / `run_once` / `assist`) -/
+def skel : Collab.Skel :=
+  { doneAfterCall := Generated.C19.skDoneAfterCall, dtorWaitsRefs := Generated.C19.skDtorWaitsRefs,
+    resetByCas := Generated.C19.skResetByCas, pinByCas := Generated.C19.skPinByCas, isolate := Generated.C19.skIsolate,
+    ord := { lateLoad := Generated.C19.ordLateLoad, spinLoad := Generated.C19.ordSpinLoad, doneCas := Generated.C19.ordDoneCas,
+             refDec := Generated.C19.ordRefDec, dtorLoad := Generated.C19.ordDtorLoad } }
+
+/-- **Generated fact: the header has the statement skeleton and the memory orders the theorems below need.**
+`run_once` installs the completion state only after the user function returned; `~collaborative_once_runner` waits for
+`m_ref_count == 0`; the exception path resets the word through `set_completion_state` (wait for zero references, CAS); a
+helper adds its reference by `CAS(expected, expected+1)`; `run_once` and `assist` wait inside
+`isolate_within_arena(tag = this)`; the fast-path load and the helper's `spin_wait_while_eq` load of the state word are at
+least acquire, the completion CAS and `m_ref_count--` at least release, the destructor's `m_ref_count` load at least acquire
+(stronger orders are accepted).  A change of any of these makes this theorem — the hypothesis of the three theorems
+below — false. -/
+theorem collab_skeleton_generated : skel.ok = true := by decide
+
+/-- **The stack-published runner is never touched after the winner's frame ended.**  In every reachable state:
+(1) no access to a destroyed runner, to unconstructed storage (arena / wait_context) or to an incarnation other than the
+    pinned one ever happened, and no carry/borrow between the pointer and the count bits (`bad = false`, `xbad = false`);
+(2) every reference held IN THE WORD (between a helper's `CAS +1` and its `fetch_sub(1)`) counts for the runner the pointer
+    bits designate NOW, whose owner is between its winning CAS and its completion CAS, and was taken on that runner's live
+    incarnation — also when the helper had read the pointer under an OLDER incarnation at the same stack address and the
+    attempt was retried in between (ABA: the CAS re-validates the whole word);
+(3) every `lifetime_guard` (helper between its increment and its decrement of `m_ref_count`: spinning on `m_is_ready`,
+    inside the arena waiting on the wait_context, executing inner tasks) is on a runner that is alive, of the pinned
+    incarnation, whose `m_ref_count` is positive and whose owner has not passed the destructor's wait;
+(4) an owner past the destructor's wait (its frame is about to end) has `m_ref_count = 0`: nobody holds a guard, the zero was
+    read with acquire and every decrement was a release (the helpers' accesses happen-before the destruction);
+(5) whoever executes an inner task of the function is a worker, the winner inside the function, or a helper inside
+    `assist()` of the runner designated by the word; while inner tasks exist the winner is inside the function (runner
+    alive, `m_is_ready` set, wait_context not yet released). -/
+theorem runner_not_destroyed_while_referenced (throws : Nat → Bool) (work : Nat → Nat) (conc : Nat) (calls : List Nat)
+    (hN : calls.length ≤ U) (sched : List (Tid × Collab.Act)) (c : Collab.CSt)
+    (hc : c = Collab.run skel U throws work conc calls sched) :
+    (c.o.bad = false ∧ c.x.xbad = false) ∧
+    (∀ (j : Nat) (th : Th), c.o.ths[j]? = some th → pinPc th.pc = true →
+        th.tgt + 1 = c.o.word.hi ∧ Collab.getN c.x.pin j = Collab.getN c.x.gen th.tgt ∧
+        ∃ tho, c.o.ths[th.tgt]? = some tho ∧ ownerPc tho.pc = true) ∧
+    (∀ (j : Nat) (th : Th), c.o.ths[j]? = some th → guardPc th.pc = true →
+        Collab.getN c.x.pin j = Collab.getN c.x.gen th.tgt ∧
+        ∃ rn tho, c.o.rns[th.tgt]? = some rn ∧ c.o.ths[th.tgt]? = some tho ∧ rn.alive = true ∧ 0 < rn.refc ∧ winAlive tho.pc = true) ∧
+    (∀ (i : Nat) (th : Th) (rn : Rn), c.o.ths[i]? = some th → c.o.rns[i]? = some rn → th.pc = .dtor2 →
+        rn.refc = 0 ∧ c.o.ths.countP (isGuardOn i) = 0 ∧ Collab.getB c.x.dok i = true ∧ c.x.dirty = false) ∧
+    ((∀ t ∈ c.x.exec, t ≥ c.o.ths.length ∨ ∃ th, c.o.ths[t]? = some th ∧
+        ((th.pc = .wCall ∧ c.o.word.hi = t + 1) ∨ (th.pc = .hWait ∧ th.tgt + 1 = c.o.word.hi))) ∧
+     (c.x.exec ≠ [] ∨ c.x.pool ≠ 0 → ∃ (i : Nat) (th : Th) (rn : Rn), c.o.word.hi = i + 1 ∧ c.o.ths[i]? = some th ∧
+        c.o.rns[i]? = some rn ∧ th.pc = .wCall ∧ rn.alive = true ∧ rn.ready = true ∧ rn.wctx = 1)) := by
+  subst hc
+  have R := Collab.reach_run skel collab_skeleton_generated U throws work conc calls hN sched
+  refine ⟨⟨R.i.nbad, R.h.nxbad⟩, ?_, ?_, ?_, R.t.t5, ?_⟩
+  · intro j th hth hp
+    have h1 := R.i.pinT j th hth hp
+    have hB := R.i.tgtB j th hth (Or.inl hp)
+    obtain ⟨tho, htho⟩ : ∃ tho, (Collab.run skel U throws work conc calls sched).o.ths[th.tgt]? = some tho :=
+      ⟨_, List.getElem?_eq_getElem hB⟩
+    exact ⟨h1, R.h.pinG j th hth (Or.inl hp), tho, htho, (R.i.own th.tgt tho htho).2 h1.symm⟩
+  · intro j th hth hg
+    exact ⟨R.h.pinG j th hth (Or.inr hg), guard_alive U _ R.i j th hth hg⟩
+  · intro i th rn hth hrn hpc
+    have h0 : rn.refc = 0 := by
+      rcases Nat.eq_zero_or_pos rn.refc with h | h
+      · exact h
+      · have := R.i.rpos i th rn hth hrn h
+        rw [hpc] at this; simp [winAlive] at this
+    exact ⟨h0, by rw [← R.i.refc i rn hrn]; exact h0, R.h.d2 i th hth hpc, R.h.d1⟩
+  · intro hne
+    have hst : (Collab.run skel U throws work conc calls sched).x.st = 1 := by
+      rcases R.t.t01 with h0 | h1
+      · have := R.t.t1 h0
+        rcases hne with h | h
+        · exact absurd this.2 h
+        · exact absurd this.1 h
+      · exact h1
+    obtain ⟨i, th, hw, hth, hpc⟩ := R.t.t2 hst
+    have hlt := lt_length_of_get hth
+    obtain ⟨rn, hrn⟩ : ∃ rn, (Collab.run skel U throws work conc calls sched).o.rns[i]? = some rn :=
+      ⟨_, List.getElem?_eq_getElem (by rw [R.i.len]; exact hlt)⟩
+    have hw2 := R.i.wcx i th rn hth hrn (Or.inl hpc)
+    have ha := R.i.alv i th rn hth hrn
+    exact ⟨i, th, rn, hw, hth, hrn, hpc, by rw [ha, hpc]; rfl, hw2.1, hw2.2⟩
+
+/-- **Every caller — winner, helper or late-comer — returns only after the successful completion, and with
+happens-before to it.**  `sees[i]` is obtained only by running the function to success or by an acquire load of the state
+word that reads a value written by a release of a thread that had it (the orders are the regenerated ones).  In every
+reachable state: (1) no call ever returned normally without it (`okUnseen = false`) and every normal return happened when
+exactly one successful completion had taken place; (2) `sees[i]` and the word's release mark imply that the function has
+completed successfully; (3) the `done` state carries the release; (4) the function returns only when every inner task
+it spawned has finished: while it runs, finished + executing + pooled = spawned. -/
+theorem callers_return_after_completion (throws : Nat → Bool) (work : Nat → Nat) (conc : Nat) (calls : List Nat)
+    (hN : calls.length ≤ U) (sched : List (Tid × Collab.Act)) (c : Collab.CSt)
+    (hc : c = Collab.run skel U throws work conc calls sched) :
+    (c.x.okUnseen = false ∧ ∀ (i : Nat) (th : Th) (k : Nat), c.o.ths[i]? = some th → Ret.ok k ∈ th.rets → k = 1) ∧
+    ((∀ i, Collab.getB c.x.sees i = true → c.o.succ = 1) ∧ (c.x.wsees = true → c.o.succ = 1)) ∧
+    (c.o.word = Word.done → c.x.wsees = true ∧ c.o.succ = 1) ∧
+    ((c.x.st = 0 → c.x.pool = 0 ∧ c.x.exec = []) ∧ (c.x.st = 1 → c.x.ran + c.x.pool + c.x.exec.length = c.x.total)) := by
+  subst hc
+  have R := Collab.reach_run skel collab_skeleton_generated U throws work conc calls hN sched
+  exact ⟨⟨R.h.h3, R.g.rok⟩, ⟨R.h.h4, R.h.h4w⟩, fun h => ⟨R.h.h1 h, R.g.g1 h⟩, R.t.t1, R.t.t4⟩
+
+/-- **`once_exception_one_caller_and_retry`, lifted to the model with helpers inside the arena.**  In every reachable state
+of `Collab`: (1) an exception delivered to caller `i` for invocation `k` means `i` ran invocation `k` as the winner, it threw,
+and it was delivered exactly once; (2) no exception is lost; (3) a caller that holds a reference or a guard — in particular
+a helper inside the arena, waiting or executing inner tasks at the time of the throw — carries no exception, and the
+invocations were all run by winners (`winners[k]`), never by a helper; (4) attempts never overlap; (5) after the reset
+(`uninitialized`) a moonlighting caller that was waiting wins the next attempt within two of its own accesses, and a helper
+still inside `assist()` of the thrower's runner is not executing a task any more (the function had returned), so its next
+access is enabled. -/
+theorem collab_exception_one_caller_and_retry (throws : Nat → Bool) (work : Nat → Nat) (conc : Nat) (calls : List Nat)
+    (hN : calls.length ≤ U) (sched : List (Tid × Collab.Act)) (c : Collab.CSt)
+    (hc : c = Collab.run skel U throws work conc calls sched) :
+    (∀ (i : Nat) (th : Th) (k : Nat), c.o.ths[i]? = some th → Ret.exc k ∈ th.rets →
+        c.o.winners[k]? = some i ∧ throws k = true ∧ th.rets.count (Ret.exc k) = 1) ∧
+    (∀ (k i : Nat), c.o.winners[k]? = some i → throws k = true →
+        ∃ th, c.o.ths[i]? = some th ∧ (th.pend = some k ∨ Ret.exc k ∈ th.rets)) ∧
+    (∀ (j : Nat) (th : Th), c.o.ths[j]? = some th → (pinPc th.pc = true ∨ guardPc th.pc = true) → th.pend = none) ∧
+    (∀ (i j : Nat) (thi thj : Th), c.o.ths[i]? = some thi → c.o.ths[j]? = some thj →
+        ownerPc thi.pc = true → ownerPc thj.pc = true → i = j) ∧
+    (c.o.word = Word.uninit →
+      (c.x.exec = [] ∧ c.x.pool = 0) ∧
+      ∀ (t : Nat) (th : Th), c.o.ths[t]? = some th → th.pc = .hSpin →
+        let c2 := Collab.runFrom skel U throws work conc c [(t, .acc), (t, .acc)]
+        c2.o.word = Word.runner t ∧ ∃ th2, c2.o.ths[t]? = some th2 ∧ th2.pc = .wReady) := by
+  subst hc
+  have hk := collab_skeleton_generated
+  have R := Collab.reach_run skel hk U throws work conc calls hN sched
+  generalize Collab.run skel U throws work conc calls sched = C at R ⊢
+  refine ⟨R.g.x2, R.g.x3, ?_, fun i j thi thj hi hj oi oj => owner_unique U _ R.i i j thi thj hi hj oi oj, ?_⟩
+  · intro j th hth hp
+    cases hpe : th.pend with
+    | none => rfl
+    | some k =>
+      have := R.g.pnd j th hth (by rw [hpe]; simp)
+      rcases hp with hp | hp <;> revert hp this <;> cases th.pc <;> simp [pinPc, guardPc, pendPc]
+  · intro hw
+    have hidle : C.x.st = 0 := by
+      rcases R.t.t01 with h0 | h1
+      · exact h0
+      · obtain ⟨i, th, hhi, _, _⟩ := R.t.t2 h1
+        rw [hw] at hhi; simp [Word.uninit] at hhi
+    refine ⟨⟨(R.t.t1 hidle).2, (R.t.t1 hidle).1⟩, ?_⟩
+    intro t th hth hpc
+    have hlt := lt_length_of_get hth
+    obtain ⟨rn, hrn⟩ : ∃ rn, C.o.rns[t]? = some rn := ⟨_, List.getElem?_eq_getElem (by rw [R.i.len]; exact hlt)⟩
+    have hx : t ∉ C.x.exec := by rw [(R.t.t1 hidle).2]; simp
+    have e1 := Collab.step_acc_enabled skel U throws work conc C t th R.t.host hth hx (by rw [hpc]; simp)
+    have hr := retry_concurrent U throws C.o t th rn (by decide) hth hrn hpc hw
+    simp only at hr
+    -- first step: hSpin reads `uninitialized` and goes to winCas
+    have hne : ¬ (Word.uninit = th.exp.orMask U) := by
+      simp only [Word.uninit, Word.orMask, Word.mk.injEq, not_and]
+      intro _; decide
+    have hs1 : Once.step U throws C.o t = { C.o with ths := C.o.ths.set t { th with exp := Word.uninit, pc := .winCas } } := by
+      simp only [Once.step, Once.stepEv, hth, hrn, hpc, hw]
+      rw [if_neg hne]
+      simp [Word.gtDone, Word.uninit, Word.done]
+    have R1 := Collab.reach_step skel hk U throws work conc C (t, .acc) R
+    rw [e1, Collab.accOnce_ok skel hk] at R1
+    have hth1 : (Once.step U throws C.o t).ths[t]? = some { th with exp := Word.uninit, pc := .winCas } := by
+      rw [hs1]; simp [hlt]
+    have hx1 : t ∉ (Collab.track skel throws C.o t C.x).exec := by
+      rw [(Collab.track_frame skel throws _ t _).1]; exact hx
+    have e2 := Collab.step_acc_enabled skel U throws work conc
+      { o := Once.step U throws C.o t, x := Collab.track skel throws C.o t C.x } t _ R1.t.host hth1 hx1 (by simp)
+    have hrun : (Collab.runFrom skel U throws work conc C [(t, .acc), (t, .acc)]).o =
+        Once.step U throws (Once.step U throws C.o t) t := by
+      simp only [Collab.runFrom, List.foldl_cons, List.foldl_nil]
+      rw [e1, Collab.accOnce_ok skel hk]
+      show (Collab.step skel U throws work conc { o := Once.step U throws C.o t, x := Collab.track skel throws C.o t C.x } (t, .acc)).o = _
+      rw [e2, Collab.accOnce_ok skel hk]
+      rfl
+    simp only [hrun]
+    exact hr
+
+/-! non-vacuity of the collaborative model: the interesting states are reachable, the ghosts can fire -/
+
+section CollabExamples
+open Collab
+
+private def A (t : Nat) : Tid × Act := (t, .acc)
+private def rep (n : Nat) (a : Tid × Act) : List (Tid × Act) := List.replicate n a
+
+set_option maxRecDepth 8192 in
+/-- collaboration: caller 1 pins and guards caller 0's runner, enters the arena (`hWait`) and executes one of the two inner
+tasks of the function; the function returns after both finished; both callers return after the completion and see it -/
+example :
+    let c := run skel U (fun _ => false) (fun _ => 2) 2 [1, 1]
+      (rep 4 (A 0) ++ [(0, .begin)] ++ rep 7 (A 1) ++ [(1, .take), (0, .take), (1, .fin), (0, .fin)] ++ rep 6 (A 0) ++ rep 5 (A 1) ++ rep 2 (A 0))
+    c.o.word = Word.done ∧ c.o.succ = 1 ∧ c.o.bad = false ∧ c.o.ths.map (·.rets) = [[Ret.ok 1], [Ret.ok 1]] ∧
+    c.x.gen = [1, 1] ∧ c.x.pin = [0, 1] ∧ c.x.xbad = false ∧ c.x.okUnseen = false ∧ c.x.sees = [true, true] ∧ c.x.ran = 2 := by decide
+
+set_option maxRecDepth 8192 in
+/-- ABA across a retry: caller 1 reads `expected` = runner of caller 0 (incarnation 1) and stops before its CAS; caller 0's
+function throws, caller 0 gets the exception, calls again and wins again AT THE SAME ADDRESS (incarnation 2); caller 1's CAS
+with the old `expected` succeeds — on incarnation 2, which is alive: `pin[1] = gen[0] = 2`, nothing bad -/
+example :
+    let c := run skel U (fun k => k == 0) (fun _ => 0) 2 [2, 1]
+      (rep 4 (A 0) ++ rep 3 (A 1) ++ [(0, .begin)] ++ rep 7 (A 0) ++ rep 4 (A 0) ++ rep 5 (A 1))
+    c.o.word = Word.runner 0 ∧ c.o.bad = false ∧ c.o.ths.map (·.pc) = [.wCall, .hWait] ∧ c.o.ths.map (·.rets) = [[Ret.exc 0], []] ∧
+    c.x.gen = [2, 1] ∧ c.x.pin = [0, 2] ∧ c.x.xbad = false := by decide
+
+set_option maxRecDepth 8192 in
+/-- isolation cannot be dropped: without it the winner, blocked in the function's parallel part, picks up the outer task that
+is caller 1 (`nest`), which becomes a helper of the winner's own runner and waits for a wait_context that only the frame
+below it can release: thread 0 cannot perform an access (`blocked`), caller 1 spins in `hWait` on the wait_context of runner 0
+(still 1), the function has begun and there is no inner task left to take or finish — nobody can move although both calls are
+unfinished … -/
+example :
+    let k := { Skel.expected with isolate := false }
+    let c := run k U (fun _ => false) (fun _ => 1) 2 [1, 1]
+      (rep 4 (A 0) ++ [(0, .begin), (0, .nest 1)] ++ rep 7 (A 1) ++ [(1, .take), (1, .fin)])
+    c.o.ths.map (·.pc) = [.wCall, .hWait] ∧ c.x.host = [none, some 0] ∧ c.x.pool = 0 ∧ c.x.exec = [] ∧
+    c.x.st = 1 ∧ blocked c 0 = true ∧ accEnabled c 0 = false ∧ (c.o.rns.map (·.wctx)) = [1, 0] ∧ c.o.ths.map (·.tgt) = [0, 0] := by decide
+
+set_option maxRecDepth 8192 in
+/-- … with the header's skeleton `nest` is not possible and the same schedule continues to the end -/
+example :
+    let c := run skel U (fun _ => false) (fun _ => 1) 2 [1, 1]
+      (rep 4 (A 0) ++ [(0, .begin), (0, .nest 1)] ++ rep 7 (A 1) ++ [(1, .take), (1, .fin)] ++ rep 6 (A 0) ++ rep 5 (A 1) ++ rep 2 (A 0))
+    c.o.word = Word.done ∧ c.o.ths.map (·.rets) = [[Ret.ok 1], [Ret.ok 1]] ∧ c.x.host = [none, none] ∧ c.o.bad = false := by decide
+
+set_option maxRecDepth 8192 in
+/-- the orders matter: with a relaxed fast-path load a late-comer returns without happens-before to the completion -/
+example :
+    (run { Skel.expected with ord := { Skel.expected.ord with lateLoad := 0 } } U (fun _ => false) (fun _ => 0) 2 [1, 1]
+      (rep 4 (A 0) ++ [(0, .begin)] ++ rep 8 (A 0) ++ [A 1])).x.okUnseen = true := by decide
+
+set_option maxRecDepth 8192 in
+/-- the skeleton matters (1): a destructor that does not wait for the guards lets a helper use the dead runner -/
+example :
+    (run { Skel.expected with dtorWaitsRefs := false } U (fun _ => false) (fun _ => 0) 2 [1, 1]
+      (rep 4 (A 0) ++ rep 6 (A 1) ++ [(0, .begin)] ++ rep 7 (A 0) ++ [A 1])).o.bad = true := by decide
+
+set_option maxRecDepth 8192 in
+/-- the skeleton matters (2): an exception path that resets the word by a plain store while a helper holds a reference in it
+makes the helper's `fetch_sub(1)` borrow from the pointer bits -/
+example :
+    let c := run { Skel.expected with resetByCas := false } U (fun _ => true) (fun _ => 0) 2 [1, 1]
+      (rep 4 (A 0) ++ rep 5 (A 1) ++ [(0, .begin)] ++ rep 2 (A 0) ++ [A 1])
+    c.o.bad = true ∧ c.o.word = ⟨0, 127⟩ := by decide
+
+set_option maxRecDepth 8192 in
+/-- the skeleton matters (3): a helper that increments without re-validating the word increments the `done` state -/
+example :
+    let c := run { Skel.expected with pinByCas := false } U (fun _ => false) (fun _ => 0) 2 [1, 1]
+      (rep 4 (A 0) ++ rep 3 (A 1) ++ [(0, .begin)] ++ rep 3 (A 0) ++ [A 1])
+    c.o.bad = true ∧ c.o.word = ⟨0, 2⟩ := by decide
+
+set_option maxRecDepth 8192 in
+/-- the skeleton matters (4): with the completion state stored before the function ran a late-comer returns before it -/
+example :
+    (run { Skel.expected with doneAfterCall := false } U (fun _ => false) (fun _ => 0) 2 [1, 1] (rep 6 (A 0) ++ [A 1])).o.ths.map (·.rets) =
+      [[], [Ret.ok 0]] := by decide
+
+end CollabExamples
 
 /-! ### enumerable_thread_specific / combinable (`ets_base::table_lookup`)
 
@@ -260,6 +569,182 @@ theorem ets_iteration_each_once (hs : List (Nat × Nat)) (hB : ∀ p ∈ hs, p.1
     · intro i h1 h2
       simp at h1
       simp [List.getD_eq_getElem?_getD, h1]
+
+/-! ### enumerable_thread_specific / combinable: storage of the elements and initialiser faults
+
+`Store` (Model/C19Store.lean): one step = one `local()` call; the outcome of the k-th `create_local()` is an oracle
+`fault k` ∈ {none, the initialiser throws, the segment allocation of `my_locals.grow_by(1)` throws}.  The theorems hold for
+EVERY number of threads, every number of calls per thread, every oracle and every order of the calls. -/
+
+/-- the statement order of `create_local` / `table_lookup` as regenerated from the header text -/
+def storeSkel : Store.Skel :=
+  { commitAfterConstruct := Generated.C19.stCommitAfterConstruct, claimAfterCreate := Generated.C19.stClaimAfterCreate }
+
+/-- **Generated fact:** `create_local` marks the element built (`value_committed()`) only after `construct` returned, and
+`table_lookup` claims the slot / publishes the pointer only after `create_local` returned. -/
+theorem ets_store_skeleton_generated : storeSkel = Store.Skel.expected := by decide
+
+/-- **The initialiser runs exactly once per thread on success.**  In every reachable state, for every thread `t`:
+its initialiser invocations are its failed ones plus exactly one if (and only if) it has an element; exactly one of its
+`local()` calls returned `exists = false` if it has an element, none otherwise; every element a `local()` call of `t` ever
+returned is THE element its slot points to, which lies in `my_locals`, was appended by `t`, is allocated, constructed and
+marked built; and no two built elements belong to the same thread. -/
+theorem ets_initialiser_exactly_once_on_success (fault : Nat → Store.Fault) (todo : List Nat) (sched : List Tid) (s : Store.St)
+    (hs : s = (Store.sys storeSkel fault todo).run sched) :
+    (∀ (t : Nat) (th : Store.Th), s.ths[t]? = some th →
+        th.calls = th.ifail + (if th.slot = none then 0 else 1) ∧ th.firsts = (if th.slot = none then 0 else 1) ∧
+        ∀ (e : Nat) (x : Bool), Store.Ret.elem e x ∈ th.rets → th.slot = some e ∧ e < s.locals.length ∧
+          ∀ el, s.locals[e]? = some el → el.owner = t ∧ el.alloc = true ∧ el.built = true ∧ el.cons = true) ∧
+    (∀ (i j : Nat) (ei ej : Store.Elem), s.locals[i]? = some ei → s.locals[j]? = some ej →
+        ei.built = true → ej.built = true → ei.owner = ej.owner → i = j) := by
+  subst hs
+  rw [ets_store_skeleton_generated]
+  have h := Store.inv_reachable fault todo sched
+  refine ⟨fun t th hth => ⟨h.calls t th hth, h.rFst t th hth, fun e x hm => ?_⟩, ?_⟩
+  · have hsl := h.rElem t th e x hth hm
+    exact ⟨hsl, h.slot t th e hth hsl⟩
+  · intro i j ei ej hi hj bi bj ho
+    obtain ⟨_, _, hlt, hi'⟩ := h.elB i ei hi bi
+    obtain ⟨_, _, _, hj'⟩ := h.elB j ej hj bj
+    have hth : ((Store.sys Store.Skel.expected fault todo).run sched).ths[ei.owner]? = some _ := List.getElem?_eq_getElem hlt
+    have a := hi' _ hth
+    have b := hj' _ (by rw [← ho]; exact hth)
+    rw [a] at b; exact Option.some.inj b
+
+/-- **After a failed initialiser (the part of the failure clause that HOLDS).**  If a `local()` call of thread `t` ended with
+the exception of `create_local` call number `a`, then in every later state: that call was faulty; the thread got no element
+from it — as long as its slot is empty no built element belongs to it; a later `local()` of `t` whose `create_local` does not
+fail makes exactly ONE further initialiser call, constructs a new element and claims it (the step equation); and the value
+destructors run at `clear()` / destruction are exactly those of constructed objects (the failed element is not destroyed). -/
+theorem ets_after_failed_initialiser (fault : Nat → Store.Fault) (todo : List Nat) (sched : List Tid) (s : Store.St)
+    (hs : s = (Store.sys storeSkel fault todo).run sched) :
+    (∀ (t : Nat) (th : Store.Th) (a : Nat), s.ths[t]? = some th → Store.Ret.exc a ∈ th.rets → fault a ≠ .none) ∧
+    (∀ (t : Nat) (th : Store.Th), s.ths[t]? = some th → th.slot = none →
+        ∀ (i : Nat) (e : Store.Elem), s.locals[i]? = some e → e.owner = t → e.built = false) ∧
+    (∀ (t : Nat) (th : Store.Th), s.ths[t]? = some th → th.slot = none → th.todo ≠ 0 → fault s.attempts = .none →
+        ∃ th', (Store.step storeSkel fault s t).ths[t]? = some th' ∧ th'.calls = th.calls + 1 ∧ th'.slot = some s.locals.length ∧
+          (Store.step storeSkel fault s t).locals = s.locals ++ [{ owner := t, built := true, cons := true }]) ∧
+    (∀ e ∈ Store.destroyed s, e.cons = true) := by
+  subst hs
+  rw [ets_store_skeleton_generated]
+  have h := Store.inv_reachable fault todo sched
+  refine ⟨fun t th a hth hm => (h.rExc t th a hth hm).1, ?_, ?_, ?_⟩
+  · intro t th hth hsl i e hi ho
+    cases hb : e.built with
+    | false => rfl
+    | true =>
+      obtain ⟨_, _, _, hh⟩ := h.elB i e hi hb
+      have := hh th (by rw [ho]; exact hth)
+      rw [hsl] at this; cases this
+  · intro t th hth hsl htd hf
+    have hlt := Store.lt_length_of_get hth
+    generalize (Store.sys Store.Skel.expected fault todo).run sched = S at hth hf hlt ⊢
+    have hstep : Store.step Store.Skel.expected fault S t =
+        { S with attempts := S.attempts + 1, locals := S.locals ++ [{ owner := t, built := true, cons := true }], count := S.count + 1,
+                 ths := S.ths.set t (Store.Th.ret { th with calls := th.calls + 1, firsts := th.firsts + 1, slot := some S.locals.length } (.elem S.locals.length false)) } := by
+      simp only [Store.step, hth, htd, if_false, hsl, hf, Store.Skel.expected]
+    rw [hstep]
+    refine ⟨Store.Th.ret { th with calls := th.calls + 1, firsts := th.firsts + 1, slot := some S.locals.length } (.elem S.locals.length false), ?_, ?_, ?_, rfl⟩
+    · simp [hlt]
+    · simp [Store.Th.ret]
+    · simp [Store.Th.ret]
+  · intro e he
+    simp only [Store.destroyed, List.mem_filter, Bool.and_eq_true] at he
+    obtain ⟨hm, _, hb⟩ := he
+    obtain ⟨i, hi⟩ := List.getElem?_of_mem hm
+    exact (h.elB i e hi hb).1
+
+/-- **The rest of the failure clause is FALSE for the code as it is** ("the container's iteration does not visit a dead
+object"): the element appended by `grow_by(1)` for a `create_local` whose initialiser threw stays in `my_locals` for ever,
+allocated, never constructed, never marked built; if no allocation failure precedes it, it is inside what `size()`, the
+iterators, `range()`, `combine_each` and `combine` walk (`visible`), at the index of that call.  (Replayed on the real
+container by harness/c19/store.cpp and with real threads by harness/c19/real.cpp: finding `ets-throwing-initialiser`.) -/
+theorem ets_failed_element_stays_visible (fault : Nat → Store.Fault) (todo : List Nat) (sched : List Tid) (s : Store.St)
+    (hs : s = (Store.sys storeSkel fault todo).run sched) (t : Nat) (th : Store.Th) (a : Nat)
+    (hth : s.ths[t]? = some th) (he : Store.Ret.exc a ∈ th.rets) (hf : fault a = .initThrows)
+    (hno : ∀ j, j < a → fault j ≠ .allocThrows) :
+    ∃ el, (Store.visible s)[a]? = some el ∧ el.owner = t ∧ el.alloc = true ∧ el.built = false ∧ el.cons = false ∧
+      el ∉ Store.destroyed s := by
+  subst hs
+  rw [ets_store_skeleton_generated] at hth ⊢
+  have h := Store.inv_reachable fault todo sched
+  obtain ⟨_, hlt, hel⟩ := h.rExc t th a hth he
+  obtain ⟨el, hel'⟩ : ∃ el, ((Store.sys Store.Skel.expected fault todo).run sched).locals[a]? = some el := ⟨_, List.getElem?_eq_getElem hlt⟩
+  obtain ⟨ho, ha, hb, hc⟩ := hel el hel'
+  have hall : ∀ j e, j ≤ a → ((Store.sys Store.Skel.expected fault todo).run sched).locals[j]? = some e → e.alloc = true := by
+    intro j e hj hje
+    cases hbj : e.built with
+    | true => exact (h.elB j e hje hbj).2.1
+    | false =>
+      have hu := h.elU j e hje hbj
+      rcases Nat.lt_or_eq_of_le hj with hlt' | heq
+      · have := hno j hlt'
+        cases hfj : fault j with
+        | none => exact absurd hfj hu.1
+        | initThrows => exact hu.2.2 hfj
+        | allocThrows => exact absurd hfj this
+      · subst heq; exact hu.2.2 hf
+  refine ⟨el, ?_, ho, ha.2 hf, hb, hc, ?_⟩
+  · exact Store.takeWhile_get _ a el hel' hall
+  · intro hm
+    simp only [Store.destroyed, List.mem_filter, Bool.and_eq_true] at hm
+    rw [hb] at hm; exact absurd hm.2.2 (by simp)
+
+/-- **What remains true of iteration: exact when no `create_local` has failed** (`…_partial`: the full clause "iteration never
+visits a dead object" is refuted above).  If the oracle never faults, every element of `my_locals` is allocated, constructed
+and built, everything is visible, and no thread owns two elements. -/
+theorem ets_iteration_exact_partial (fault : Nat → Store.Fault) (hnf : ∀ a, fault a = .none) (todo : List Nat) (sched : List Tid)
+    (s : Store.St) (hs : s = (Store.sys storeSkel fault todo).run sched) :
+    (∀ (i : Nat) (e : Store.Elem), s.locals[i]? = some e → e.alloc = true ∧ e.built = true ∧ e.cons = true) ∧
+    Store.visible s = s.locals := by
+  subst hs
+  rw [ets_store_skeleton_generated]
+  have h := Store.inv_reachable fault todo sched
+  have key : ∀ (i : Nat) (e : Store.Elem), ((Store.sys Store.Skel.expected fault todo).run sched).locals[i]? = some e →
+      e.alloc = true ∧ e.built = true ∧ e.cons = true := by
+    intro i e hi
+    cases hb : e.built with
+    | true => exact ⟨(h.elB i e hi hb).2.1, rfl, (h.elB i e hi hb).1⟩
+    | false => exact absurd (hnf i) (h.elU i e hi hb).1
+  refine ⟨key, ?_⟩
+  simp only [Store.visible]
+  apply Store.takeWhile_all
+  intro e hm
+  obtain ⟨i, hi⟩ := List.getElem?_of_mem hm
+  exact (key i e hi).1
+
+/-- **Element addresses are stable across growth of `my_locals`, and concurrent `create_local` calls get distinct elements**
+(instance of C11's theorems for the growers of `my_locals`: every `create_local` is one `grow_by(1)`).  Whatever the threads
+and the interleaving of their accesses to the vector's size word: the index ranges handed out are pairwise disjoint, and an
+element constructed at (allocation, offset) is found there in every later state, whatever segments are added and whether or
+not the segment table is switched.  (Stability across growth of the hash table: `ets_growth_preserves`.) -/
+theorem ets_element_address_stable (creates : List Nat) (sched ext : List Tid) (i al off : Nat) :
+    let progs := creates.map (fun n => List.replicate n (C11.Op.growBy 1))
+    ((C11.sys progs).run sched).log.Pairwise (fun r s => r.2 ≤ s.1) ∧
+    ((i, al, off) ∈ ((C11.Seg.sys progs).run sched).sh.cons →
+      (i, al, off) ∈ ((C11.Seg.sys progs).runFrom ((C11.Seg.sys progs).run sched) ext).sh.cons) := by
+  intro progs
+  exact ⟨C11.grow_ranges_disjoint progs sched, fun hc => (C11.element_address_stable progs sched ext i al off hc).1⟩
+
+/-- non-vacuity: three threads; thread 1's first initialiser throws (attempt 1), its second call succeeds; `size()` is 4,
+the element at index 1 is visible and never constructed, three destructors will run, thread 1 made two initialiser calls -/
+example :
+    let s := (Store.sys storeSkel (fun a => if a = 1 then .initThrows else .none) [2, 2, 2]).run [0, 0, 1, 1, 2, 2]
+    (Store.visible s).map (fun e => (e.owner, e.built)) = [(0, true), (1, false), (1, true), (2, true)] ∧
+    s.ths.map (·.rets) = [[.elem 0 true, .elem 0 false], [.elem 2 false, .exc 1], [.elem 3 true, .elem 3 false]] ∧
+    s.ths.map (·.calls) = [1, 2, 1] ∧ (Store.destroyed s).length = 3 ∧ s.count = 3 := by decide
+
+/-- an allocation failure of `my_locals` hides LATER elements from `size()` / iteration: threads 1 and 2 have elements, `size()` is 1 -/
+example :
+    let s := (Store.sys storeSkel (fun a => if a = 1 then .allocThrows else .none) [1, 2, 1]).run [0, 1, 1, 2]
+    (Store.visible s).length = 1 ∧ s.locals.length = 4 ∧ s.ths.map (·.slot) = [some 0, some 2, some 3] := by decide
+
+/-- the skeleton matters: marking the element built before the initialiser ran makes `clear()` destroy a never-constructed
+object; publishing the slot before `create_local` finished hands the dead element out with `exists = true` -/
+example :
+    let s1 := (Store.sys { Store.Skel.expected with commitAfterConstruct := false } (fun a => if a = 0 then .initThrows else .none) [1]).run [0]
+    let s2 := (Store.sys { Store.Skel.expected with claimAfterCreate := false } (fun a => if a = 0 then .initThrows else .none) [2]).run [0, 0]
+    (Store.destroyed s1).map (·.cons) = [false] ∧ s2.ths.map (·.rets) = [[.elem 0 true, .exc 0]] ∧ s2.locals.map (·.built) = [false] := by decide
 
 /-! ### enumerable_thread_specific / combinable across the container's lifecycle, for every key kind
 
